@@ -19,3 +19,6 @@ register('C11', 'proof',
          assumptions=['payload record shapes of contracts/shapes.py REC_KEYS (checked at run time in the thorough tier)',
                       'floats treated as reals (times are only compared)',
                       'time.monotonic() is non-decreasing along one execution'])
+register('C20', 'proof',
+         'WORK IN PROGRESS',
+         assumptions=['floats treated as reals'])
